@@ -81,16 +81,25 @@ pub fn gen_chunks(g: &mut G, total: usize) -> (Vec<ChunkSpec>, Vec<String>) {
     let mut specs = Vec::new();
     let mut styles = Vec::new();
     for &n in &lens {
-        let style = g.below(6);
+        let style = g.below(7);
         let mut line = match style {
             0 => format!("{:x}", n),
             1 => format!("{:X}", n),
             2 => format!("000{:x}", n),
             3 => format!("{:x};ext=val", n),
             4 => format!("{:X};a;b=\"q\"", n),
+            // obs-text inside a quoted extension value is legal (RFC 9110 quoted-string)
+            6 => format!("{:x};note=\"caf\u{e9}\"", n),
             _ => format!("{:x};{}", n, "x".repeat(g.range(1, 90) as usize)),
         }
         .into_bytes();
+        if style == 6 {
+            // as a single Latin-1 octet, not as UTF-8
+            if let Some(at) = line.windows(2).position(|w| w == [0xc3, 0xa9]) {
+                line.splice(at..at + 2, [0xe9u8]);
+            }
+            g.probe("chunk-extension-with-obs-text");
+        }
         if line.len() > 120 {
             line.truncate(120);
         }
@@ -164,9 +173,9 @@ pub fn gen_plan(g: &mut G, max_payload: usize) -> BodyPlan {
     wire.head_len = wire.bytes.len();
     wire.targets.push(wire.head_len - 1);
     wire.targets.push(wire.head_len - 2);
-    let last = *g.pick(&["0", "00", "0;last"]);
+    let last: &[u8] = *g.pick(&[&b"0"[..], &b"00"[..], &b"0;last"[..], &b"0;sig=\"\xfe\xff\""[..]]);
     let garbage_bytes: Vec<u8> = (0..garbage).map(|i| b"5\r\nHTTP/1.1 200 OK\r\n\r\nGARBAGE-GARBAGE-GARBAGE!!"[i % 44]).collect();
-    httpref::encode_body(&mut wire, framing, &payload, &chunks, last.as_bytes(), &garbage_bytes);
+    httpref::encode_body(&mut wire, framing, &payload, &chunks, last, &garbage_bytes);
     let (segs, seg_name) = gen::segmentation(g, wire.bytes.len(), &wire.targets.clone());
     let nsegs = segs.len();
     let script = Script::from_wire(&wire.bytes, &segs, End::Fin);
